@@ -79,6 +79,42 @@ func (w *World) Constructor(name string, args []interp.Value) (interp.Value, boo
 		}
 		nm := w.fresh("N")
 		return mk(nm, dims, sym.LeafE(nm, IdentIdx(len(dims))), FiniteAny(), boolArg(args[3])), true
+	case "TensorOf":
+		iv, ok := args[0].(interp.IfaceV)
+		if !ok {
+			return nil, false
+		}
+		// rectangular, non-empty at every level: dims are the lengths along the first path
+		var dims []sym.Poly
+		okShape := true
+		var walk func(v interp.Value, depth int)
+		walk = func(v interp.Value, depth int) {
+			s, isSlice := v.(interp.SliceV)
+			if !isSlice {
+				return
+			}
+			if s.Len == 0 {
+				okShape = false
+				return
+			}
+			if depth == len(dims) {
+				dims = append(dims, sym.PInt(int64(s.Len)))
+			} else if c, _ := dims[depth].Const(); int(c) != s.Len {
+				okShape = false
+				return
+			}
+			for _, el := range interp.SliceElems(s) {
+				walk(el, depth+1)
+			}
+		}
+		walk(iv.V, 0)
+		if !okShape {
+			return w.errResult("TensorOf: empty or ragged nested data"), true
+		}
+		if dims == nil {
+			dims = []sym.Poly{}
+		}
+		return mk("TensorOf", dims, sym.LeafE("D", IdentIdx(len(dims))), FiniteAny(), boolArg(args[1])), true
 	case "Concat":
 		ts, ok := args[0].(interp.SliceV)
 		if !ok || ts.Len < 2 {
